@@ -40,6 +40,11 @@ def kernel_calls(ctx, fi, g, name):
         ctx, fi, g, lambda c, r: any(t.qual == 'xfrm.Xfrm.' + name for t in r.targets))]
 
 
+def _pc_term(pc):
+    from ..sval import pc_term
+    return pc_term(tuple(pc)) if pc else ('const', 'bool', True)
+
+
 def kernel_teardown(ctx, esc, rule):
     """removing a CHILD_SA from the kernel cannot be cut short and cannot fail the caller: delete_child_sa asks for both SAs of the pair
     on every path that returns (whatever the kernel said about the first), and delete_sa turns a kernel refusal (the SA is already gone:
@@ -81,6 +86,21 @@ def kernel_teardown(ctx, esc, rule):
     # ... and the teardown of an IKE_SA reaches every CHILD_SA it tracks
     if rule != 'P2':
         teardown_visits_all(ctx, rule)
+    # ... which is everything the kernel may hold: a CHILD_SA is entered in `child_sas` BEFORE its SAs are installed, so that a teardown
+    # after an installation that failed half-way (first SA accepted, second refused) still finds and removes the first one
+    n = 0
+    for fi in ctx.prog.cls('ikesa.IkeSa').methods.values():
+        if not isinstance(fi.node, ast.FunctionDef) or not fi.self_name:
+            continue
+        S = ctx.sval(fi)
+        for c in S.calls_to(qual='xfrm.Xfrm.create_child_sa'):
+            n += 1
+            what = c.args.get('child_sa')
+            apps = [a for a in S.calls if a.name == 'append' and a.recv == ('attr', ('param', fi.self_name), 'child_sas')
+                    and list(a.args.values())[:1] == [what] and a.seq < c.seq and tq.entails(c.pc, _pc_term(a.pc)) is True]
+            ctx.check(bool(apps), rule, '%s: the CHILD_SA is tracked in child_sas before Xfrm.create_child_sa installs it' % fi.name,
+                      key=(rule, fi.qual, 'tracked-before-installed'), site=ctx.site(fi, c.node))
+    ctx.floor('%s kernel installations of a CHILD_SA in IkeSa' % rule, n, 2, rule=rule)
 
 
 def run(ctx):
@@ -163,6 +183,15 @@ def run(ctx):
     ctx.check(len(cs) == 2 and all(not c.pc for c in cs), 'P1', 'Xfrm.create_child_sa installs exactly two kernel SAs (%d create_sa calls)' % len(cs),
               key=('P1', 'create_sa-count', len(cs)), site=ctx.site(cc, cc.node))
 
+    # what the rollback paths react to is the kernel's refusal: the NEWSA request is sent, its reply is read and a non-zero NLMSG_ERROR
+    # comes out of send_recv as NetlinkError (a refusal that never surfaces leaves a tracked CHILD_SA the kernel does not have);
+    # and the SA is installed under the address family of its tunnel endpoints, which is where the later DELSA looks for it
+    # (shared with C14 L3 / L4)
+    from .c14 import check_framing, check_layouts, Headers
+    sizes = check_layouts(ctx, Headers(), rule='P1', only=('xfrm.XfrmUserSaInfo', 'xfrm.XfrmUserPolicyInfo', 'xfrm.XfrmAlgo', 'xfrm.XfrmUserTmpl',
+                                                            'netlink.NetlinkHeader'), floor=0)
+    check_framing(ctx, sizes, 'P1')
+    common.create_sa_orientation(ctx, 'P1')
     # ---------------------------------------------------------------- P2
     nrem = 0
     for fi in ikesa.methods.values():
